@@ -17,6 +17,7 @@ import (
 
 	proto "github.com/golang/protobuf/proto"
 	"google.golang.org/protobuf/types/known/emptypb"
+	"google.golang.org/protobuf/types/known/structpb"
 	"google.golang.org/protobuf/types/known/wrapperspb"
 )
 
@@ -62,7 +63,7 @@ func (m *StringV) GetVersion() string { return m.Ver }
 
 // Frame describes one message to be framed.
 type Frame struct {
-	Kind      string `json:"kind"` // raw | bytes | string | int64 | empty
+	Kind      string `json:"kind"` // raw | bytes | string | int64 | empty | list (list_c06.go)
 	Payload   []byte `json:"-"`
 	PayloadHx string `json:"payload_hex,omitempty"`
 	Int       int64  `json:"int,omitempty"`
@@ -75,7 +76,9 @@ type Frame struct {
 var Kinds = []string{"raw", "bytes", "string", "int64", "empty"}
 
 // HasVersionedForm reports whether a kind has a versioned wrapper.
-func HasVersionedForm(kind string) bool { return kind == "raw" || kind == "bytes" || kind == "string" }
+func HasVersionedForm(kind string) bool {
+	return kind == "raw" || kind == "bytes" || kind == "string" || kind == "list"
+}
 
 // Message builds the proto.Message of a frame.
 func (f Frame) Message() proto.Message {
@@ -99,6 +102,8 @@ func (f Frame) Message() proto.Message {
 		return m
 	case "int64":
 		return &wrapperspb.Int64Value{Value: f.Int}
+	case "list":
+		return f.listMessage(newList(f.Payload))
 	}
 	return &emptypb.Empty{}
 }
@@ -123,6 +128,8 @@ func (f Frame) Fresh() proto.Message {
 		return &wrapperspb.StringValue{}
 	case "int64":
 		return &wrapperspb.Int64Value{}
+	case "list":
+		return f.listMessage(&structpb.ListValue{})
 	}
 	return &emptypb.Empty{}
 }
@@ -149,6 +156,8 @@ func (f Frame) Dirty() proto.Message {
 		return &wrapperspb.StringValue{Value: string(stale)}
 	case "int64":
 		return &wrapperspb.Int64Value{Value: 7777}
+	case "list":
+		return f.listMessage(dirtyList())
 	}
 	return &emptypb.Empty{}
 }
@@ -206,6 +215,10 @@ func (f Frame) SameContent(m proto.Message) (bool, string) {
 		return x.Value == f.Int, fmt.Sprint(x.Value)
 	case *emptypb.Empty:
 		return true, "empty"
+	case *structpb.ListValue:
+		return f.sameList(x)
+	case *ListV:
+		return f.sameList(x.ListValue)
 	}
 	return false, fmt.Sprintf("unexpected type %T", m)
 }
@@ -237,6 +250,8 @@ func (f Frame) Body() []byte {
 			return nil
 		}
 		return append([]byte{0x08}, varint(uint64(f.Int))...)
+	case "list":
+		return listBody(f.Payload)
 	}
 	return nil
 }
